@@ -358,13 +358,15 @@ to `/repo` itself, checked, and undone (`tools/seed_confirm.sh`, recorded in
   `C12.who-may-cancel`, `C12.replicate-until-closed`,
   `C01.kv-carried-together`, `C01.children-one-more`, `C01.reseek-direction`,
   `C14.normalise-first`, `C02.seek-always-positions`.
-  **One seed stays missed**: `C19-r3m3` (`xslices.Chunk` rewritten as a
-  peel-off loop returns `[[]]` for an empty input) — a value-level fact
-  (`(len(s)+c-1)/c == 0` for an empty input) with no sound structural rule in
-  reach; it is recorded as missed in the thorough evidence of C19 and here.
+  The last one, `C19-r3m3` (`xslices.Chunk` rewritten as a peel-off loop
+  returns `[[]]` for an empty input), was first recorded as out of reach (a
+  value-level fact about `(len(s)+c-1)/c`); it is now reported by
+  `C19.empty-in-empty-out`, which decides only the necessary condition that is
+  structural: no exported slice→slice function of xslices may return a result
+  that is non-empty on *every* path (an unconditional `append(out, x)`).
 
 A rule written after seeing a seed says so above; that is the honest reading of
-"caught": 159 of 160 seeds are reported today; in rounds 2 and 3, 81 of 120 were
+"caught": all 160 seeds of rounds 1-3 are reported today; in rounds 2 and 3, 81 of 120 were
 reported by the rules that existed when the seed arrived.
 
 ### 8.2 Controls
